@@ -206,6 +206,7 @@ type Interp struct {
 	mapOrderOverride string
 	syncState map[*Value]*syncObj
 	boundsUsed map[string]int
+	known map[*sym.Term]bool
 }
 
 type hookFn func(fr *frame, args []Value) Value
@@ -300,6 +301,9 @@ func (in *Interp) branchX(cond *sym.Term, aux uint64, noAlt bool, label string) 
 		return cond.IsTrue()
 	}
 	c := in.ctx
+	if v, ok := in.known[cond]; ok && !noAlt && !strings.HasPrefix(label, "value:") {
+		return v
+	}
 	if in.inReplay() {
 		d := in.trace[in.pos]
 		if d.choice || (!d.imported && d.cond != cond) {
@@ -318,6 +322,7 @@ func (in *Interp) branchX(cond *sym.Term, aux uint64, noAlt bool, label string) 
 			in.model = d.altModel
 			d.altModel = nil
 		}
+		in.setKnown(cond, d.taken)
 		return d.taken
 	}
 	if len(in.trace) >= in.cfg.MaxDecisions {
@@ -401,6 +406,7 @@ func (in *Interp) branchX(cond *sym.Term, aux uint64, noAlt bool, label string) 
 	}
 	in.trace = append(in.trace, d)
 	in.pos++
+	in.setKnown(cond, d.taken)
 	if !d.forced {
 		t := cond
 		if !d.taken {
@@ -410,6 +416,16 @@ func (in *Interp) branchX(cond *sym.Term, aux uint64, noAlt bool, label string) 
 		in.maybeDonate()
 	}
 	return d.taken
+}
+
+// setKnown records the truth value of cond on this path (and of its negation).
+func (in *Interp) setKnown(cond *sym.Term, v bool) {
+	in.known[cond] = v
+	if cond.Op == sym.OpNot {
+		in.known[cond.Args[0]] = !v
+	} else {
+		in.known[in.ctx.Not(cond)] = !v
+	}
 }
 
 // choose is an enumerated n-way decision.
@@ -455,6 +471,13 @@ func (in *Interp) assume(cond *sym.Term) {
 	if cond.IsFalse() {
 		in.abort("infeasible", "assumption false")
 	}
+	if v, ok := in.known[cond]; ok {
+		if v {
+			return
+		}
+		in.abort("infeasible", "assumption contradicts an earlier decision")
+	}
+	in.setKnown(cond, true)
 	if in.inReplay() {
 		in.pushPC(cond)
 		return
@@ -662,6 +685,7 @@ func (in *Interp) resetPath() {
 	in.sched = nil
 	in.fs = nil
 	in.pathViolations = 0
+	in.known = map[*sym.Term]bool{}
 	in.mapOrderOverride = ""
 	in.syncState = map[*Value]*syncObj{}
 	in.elemPtrOwner = map[*Value][]Value{}
